@@ -355,7 +355,7 @@ Definition acct_ok (p : pool) (a : N) : Prop :=
   | Some l => l <> [] /\ chain l /\ starts (nonce_of p a) l /\
               aget (p_spent p) a = Some (sum_cost l) /\ sum_cost l <= bal_of p a
   end.
-Definition Inv (p : pool) : Prop := (forall a, acct_ok p a) /\ (forall a, bal_of p a < two256).
+Definition Inv (p : pool) : Prop := forall a, acct_ok p a.
 
 Definition same_core (p q : pool) : Prop :=
   p_index q = p_index p /\ p_spent q = p_spent p /\ p_nonce q = p_nonce p /\ p_bal q = p_bal p.
@@ -372,28 +372,25 @@ Proof. unfold same_core. intuition congruence. Qed.
 
 Lemma inv_same_core p q : Inv p -> same_core p q -> Inv q.
 Proof.
-  intros [H1 H2] [Hi [Hs [Hn Hb]]]. split.
-  - intro a. specialize (H1 a). unfold acct_ok, nonce_of, bal_of in *. rewrite Hi, Hs, Hn, Hb. exact H1.
-  - intro a. specialize (H2 a). unfold bal_of in *. rewrite Hb. exact H2.
+  intros H1 [Hi [Hs [Hn Hb]]].
+  intro a. specialize (H1 a). unfold acct_ok, nonce_of, bal_of in *. rewrite Hi, Hs, Hn, Hb. exact H1.
 Qed.
 
 Lemma inv_upd_some p q a l :
   Inv p -> upd_some p q a l -> l <> [] -> chain l -> starts (nonce_of p a) l -> sum_cost l <= bal_of p a -> Inv q.
 Proof.
-  intros [H1 H2] [Hi [Hs [Hn Hb]]] Hne Hc Hst Hle. split.
-  - intro a2. specialize (H1 a2). unfold acct_ok, nonce_of, bal_of in *. rewrite Hi, Hs, Hn, Hb.
-    rewrite !aget_aset. destruct (a =? a2) eqn:E.
-    + apply N.eqb_eq in E; subst a2. repeat split; assumption.
-    + exact H1.
-  - intro a2. specialize (H2 a2). unfold bal_of in *. rewrite Hb. exact H2.
+  intros H1 [Hi [Hs [Hn Hb]]] Hne Hc Hst Hle.
+  intro a2. specialize (H1 a2). unfold acct_ok, nonce_of, bal_of in *. rewrite Hi, Hs, Hn, Hb.
+  rewrite !aget_aset. destruct (a =? a2) eqn:E.
+  - apply N.eqb_eq in E; subst a2. repeat split; assumption.
+  - exact H1.
 Qed.
 
 Lemma inv_upd_none p q a : Inv p -> upd_none p q a -> Inv q.
 Proof.
-  intros [H1 H2] [Hi [Hs [Hn Hb]]]. split.
-  - intro a2. specialize (H1 a2). unfold acct_ok, nonce_of, bal_of in *. rewrite Hi, Hs, Hn, Hb.
-    rewrite !aget_adel. destruct (a =? a2); [reflexivity | exact H1].
-  - intro a2. specialize (H2 a2). unfold bal_of in *. rewrite Hb. exact H2.
+  intros H1 [Hi [Hs [Hn Hb]]].
+  intro a2. specialize (H1 a2). unfold acct_ok, nonce_of, bal_of in *. rewrite Hi, Hs, Hn, Hb.
+  rewrite !aget_adel. destruct (a =? a2); [reflexivity | exact H1].
 Qed.
 
 Lemma sum_cost_app l1 l2 : sum_cost (l1 ++ l2) = sum_cost l1 + sum_cost l2.
@@ -441,7 +438,7 @@ Proof.
   destruct (p_heap p) as [|from hr] eqn:Eh; [discriminate|].
   destruct (last_opt (txs_of p from)) as [d|] eqn:El; [|discriminate].
   unfold txs_of in *. destruct (aget (p_index p) from) as [txs|] eqn:Ei; [|discriminate El].
-  pose proof (proj1 HI from) as Hok. unfold acct_ok in Hok. rewrite Ei in Hok.
+  pose proof (HI from) as Hok. unfold acct_ok in Hok. rewrite Ei in Hok.
   destruct Hok as [Hne [Hc [Hst [Hsp Hle]]]].
   destruct (removelast_app_last txs Hne) as [x [Ex Elx]]. rewrite El in Elx. inversion Elx; subst x.
   destruct (Nat.eqb (length txs) 1) eqn:E1.
@@ -562,7 +559,7 @@ Proof.
       apply IH in H; [exact H|]. clear IH H.
       pose proof (split_tip_spec _ _ _ _ Es) as [Hl _].
       unfold txs_of in Hl, Es. destruct (aget (p_index p0) a) as [l|] eqn:Ei; [|destruct keep; discriminate Hl].
-      pose proof (proj1 HI1 a) as Hok. unfold acct_ok in Hok. rewrite Ei in Hok.
+      pose proof (HI1 a) as Hok. unfold acct_ok in Hok. rewrite Ei in Hok.
       destruct Hok as [Hne [Hc [Hst [Hsp Hle]]]].
       inv_bind_as Ex q1.
       assert (Hsum : sum_cost l = sum_cost keep + sum_cost (d0 :: dr)) by (rewrite Hl; apply sum_cost_app).
@@ -593,14 +590,13 @@ Definition p_ex : pool :=
 
 Lemma p_ex_inv : Inv p_ex.
 Proof.
-  split; intro a.
-  - unfold acct_ok, p_ex. cbn [p_index p_spent aget]. destruct (0 =? a) eqn:E; [|reflexivity].
-    repeat split.
-    + discriminate.
-    + constructor; [vm_compute; reflexivity | constructor].
-    + unfold nonce_of. cbn [p_nonce aget]. rewrite E. reflexivity.
-    + unfold bal_of. cbn [p_bal aget]. rewrite E. apply N.leb_le. vm_compute. reflexivity.
-  - unfold bal_of, p_ex. cbn [p_bal aget]. destruct (0 =? a); apply N.ltb_lt; vm_compute; reflexivity.
+  intro a.
+  unfold acct_ok, p_ex. cbn [p_index p_spent aget]. destruct (0 =? a) eqn:E; [|reflexivity].
+  repeat split.
+  - discriminate.
+  - constructor; [vm_compute; reflexivity | constructor].
+  - unfold nonce_of. cbn [p_nonce aget]. rewrite E. reflexivity.
+  - unfold bal_of. cbn [p_bal aget]. rewrite E. apply N.leb_le. vm_compute. reflexivity.
 Qed.
 
 Lemma p_ex_evicts :
